@@ -1,9 +1,66 @@
-(* C01 — backward() deposits the aggregation of the true Jacobian into .grad.  Obligations only. *)
-From Coq Require Import List Bool Arith.
-From TJ Require Import Num Linalg Chunk Autojac.
+(* C01 — backward() deposits the aggregation of the true Jacobian into .grad.  Obligations only.
+   Instance: real numbers (every finite float is a real).  P ranges over all autograd programs
+   (any number of tensors, shapes, reuse), A over all aggregators (any function). *)
+From Coq Require Import Reals List Bool Arith.
+From TJ Require Import Num Linalg NumR Chunk Autojac.
+From TJ.proofs Require Import LinalgR AutojacBasics AutojacSpec C01Proofs.
 Import ListNotations.
 
-Theorem C01_empty_tensors_rejected : forall T (N : Num T) P A ord k retain s,
-  backward_model N P A [] ord k retain s = (Err ValueError, s).
-Proof. intros. unfold backward_model. destruct (valid_chunk k); reflexivity. Qed.
-Print Assumptions C01_empty_tensors_rejected.
+(* an accepted call adds to the .grad of EVERY input exactly its own slice (reshaped to the
+   input's shape) of A(J), J = the true Jacobian whose rows are the scalars of `tensors`
+   (flattened, in the order given) and whose columns are the scalars of the inputs in the
+   enumeration order `ord` of the input set; no other .grad changes.  For every chunk size and
+   both retain flags. *)
+Theorem C01_deposit : forall (P : prog R) (A : list (list R) -> res (list R))
+    tensors ord k retain s d' s',
+  wf_prog P -> ord <> [] -> (1 <= total P tensors)%nat ->
+  backward_model RN P A tensors ord k retain s = (Ok d', s') ->
+  NoDup tensors /\ NoDup ord /\
+  exists v, A (jacobian P tensors ord) = Ok v /\ length v = total P ord /\
+    (forall i, In i ord ->
+       grad_val s' i = Some (acc_val (grad_val s i) (plain (p_shape P i) (slice_of P ord v i)))) /\
+    (forall t, ~ In t ord -> sget s' t = sget s t).
+Proof. exact backward_deposit. Qed.
+Print Assumptions C01_deposit.
+
+Theorem C01_no_inputs : forall (P : prog R) A tensors k retain s d' s',
+  backward_model RN P A tensors [] k retain s = (Ok d', s') -> s_grads s' = s_grads s.
+Proof. exact backward_no_inputs. Qed.
+Print Assumptions C01_no_inputs.
+
+(* an input that does not influence the outputs contributes a zero column block *)
+Theorem C01_unreachable_zero : forall (P : prog R) outs i,
+  wf_prog P -> (forall o, In o outs -> p_reach P o i = false) ->
+  Forall (fun row => row = vzeroR (pnumel P i)) (Drows P outs i).
+Proof. exact unreachable_zero_block. Qed.
+Print Assumptions C01_unreachable_zero.
+
+(* rows follow the order in which the tensors are given *)
+Theorem C01_rows_follow_tensor_order : forall (P : prog R) a b ord,
+  wf_prog P -> jacobian P (a ++ b) ord = jacobian P a ord ++ jacobian P b ord.
+Proof. exact jacobian_rows_app. Qed.
+Print Assumptions C01_rows_follow_tensor_order.
+
+(* the engine contract used above, as a lemma of the model: the VJP of the r-th one-hot cotangent
+   is the r-th row of the stacked total derivative (a tensor reached through several paths
+   contributes its TOTAL derivative: D is the total-derivative block) *)
+Theorem C01_onehot_row : forall (P : prog R) i outs r,
+  wf_prog P -> (r < total P outs)%nat ->
+  vjp RN P outs (split_by (map (pnumel P) outs) (onehotR (total P outs) r 1%R)) i
+  = nth r (Drows P outs i) [].
+Proof. exact vjp_onehot. Qed.
+Print Assumptions C01_onehot_row.
+
+(* non-vacuity (executable instance QN): a concrete accepted call.  y = (2 x0, 3 x1), Constant(1,10):
+   x.grad goes from absent to (2, 30), for chunk sizes None, 1 and 3 *)
+From Coq Require Import QArith.
+From TJ Require Import NumQ Agg AutojacShow.
+Example C01_accepted_call :
+  let P := mk_prog [[2%nat]; [2%nat]] [(1%nat, 0%nat, [[2#1; 0#1]; [0#1; 3#1]])] [(1%nat, 0%nat)]
+                   [true; true] [true; false] [None; Some 0%nat] [Some 1%nat; Some 0%nat]
+                   [[Some 1%nat]; []] [None; Some 0%nat] [true; false] in
+  map (fun k => show_grads (snd (backward_model QN P (agg_constant QN [1#1; 10#1]) [1%nat] [0%nat] k false
+                                  (mk_store [] [] 0%nat))) [0%nat])
+      [None; Some 1%nat; Some 3%nat]
+  = repeat [Some (0%nat, ([2%nat], [(2%Z, 1%Z); (30%Z, 1%Z)]))] 3.
+Proof. vm_compute. reflexivity. Qed.
